@@ -189,6 +189,22 @@ class ApplyLayoutCastSubviewGlobal(RewritePattern):
         if not isinstance(const_type.layout, builtin.NoneAttr):
             return
 
+        # the tile must divide the global in every dimension: the floor division below would
+        # otherwise leave the last rows / columns of the global without a place of their own
+        if any(
+            shape % prod(cast(int, stride.bound) for _, stride in tstride) != 0
+            for tstride, shape in zip(layout.data.tstrides, const_shape)
+        ):
+            return
+
+        # the subview must start at a tile boundary: only then the tile layout describes where its
+        # elements are inside the re-laid-out global (dynamic offsets cannot be checked here)
+        if any(
+            offset != builtin.DYNAMIC_INDEX and offset % prod(cast(int, stride.bound) for _, stride in tstride) != 0
+            for tstride, offset in zip(layout.data.tstrides, subview.static_offsets.get_values())
+        ):
+            return
+
         # find current strides
         current_stride = max(cast(int, stride.bound) * cast(int, stride.step) for _, _, stride in layout.data)
         new_tstrides: list[TiledStride] = []
